@@ -337,7 +337,10 @@ def run(chk):
     if oke:
         hd = trys[0]["handlers"][0]
         pushes = [x for x in walk(hd["body"]) if x.get("k") == "call" and x.get("name") in ("push_back", "emplace_back")]
-        oke = "eval_error" in prog.T(g, hd["bt"]) and hd.get("ref") and handler_rethrows(hd) and len(pushes) == 1 and "call_stack" in expr_str(prog, g, pushes[0])
+        from .c20 import helper_pushes
+        via = helper_pushes(prog, g, hd) if not pushes else []
+        pushed_once = (len(pushes) == 1 and "call_stack" in expr_str(prog, g, pushes[0])) or (not pushes and len(via) == 1)
+        oke = "eval_error" in prog.T(g, hd["bt"]) and hd.get("ref") and handler_rethrows(hd) and pushed_once
     r5.ob("AST_Node_Impl::eval appends this node to the eval_error's call stack once and rethrows the same object", oke, g.where, g["q"],
           "the annotation handler does not catch by reference / does not rethrow / pushes other than once")
     chk.touched(evs[:1])
